@@ -549,4 +549,33 @@ def rule_g(ctx: Ctx, rule: str = 'C12.g') -> None:
                 'schema_class(base_url=…); every call of a chain member from a function owning a base URL must forward it.')
 
 
-RULES = [rule_a, rule_b, rule_c, rule_d, rule_e, rule_f, rule_g]
+def rule_h(ctx: Ctx) -> None:
+    """The module-level API builds the instance resource and fetches the schema named by its location hints from the *same*
+    options: the function that splits the keyword arguments must leave them in place for the second consumer."""
+    rule = 'C12.h'
+    idx = ctx.idx
+    doc = idx.module('documents')
+    f = doc.functions.get('get_context')
+    if f is None:
+        raise AnalysisError('missing anchor xmlschema.documents.get_context')
+    ctx.analysed(f.qualname)
+    muts = [c for c in calls(f.node) if isinstance(c.func, ast.Attribute) and text(c.func.value) == 'kwargs' and c.func.attr in ('pop', 'popitem', 'clear', 'update', 'setdefault')]
+    dels = [s for s in ast.walk(f.node) if isinstance(s, ast.Delete) and any(text(t).startswith('kwargs[') for t in s.targets)]
+    ok = not muts and not dels
+    ctx.ob(rule, 'get_context: the keyword arguments are filtered twice (resource options, schema options) and never consumed', f.loc(muts[0]) if muts else f.loc(), ok,
+           '' if ok else f'`{text(muts[0])[:50] if muts else text(dels[0])[:50]}` removes options before the schema-option filter runs: the schema named by the instance\'s '
+           'xsi:schemaLocation is fetched with allow=\'all\' although the caller passed allow=\'none\'/\'sandbox\'', key='get_context|kwargs-not-consumed')
+    # both filters exist and the schema filter covers the access options
+    filt = [text(g.ifs[0].comparators[0]) for n in ast.walk(f.node) if isinstance(n, ast.DictComp) for g in n.generators
+            if g.ifs and isinstance(g.ifs[0], ast.Compare) and isinstance(g.ifs[0].ops[0], ast.In)]
+    ok = 'RESOURCE_KWARGS' in filt and 'SCHEMA_KWARGS' in filt
+    ctx.ob(rule, 'get_context: one filter for the instance resource, one for the schema', f.loc(), ok, f'{filt}', key='get_context|two-filters', nontrivial=False)
+    ss = idx.cls('xmlschema.settings.SchemaSettings')
+    need = ('allow', 'defuse', 'base_url', 'timeout')
+    ok = all(ss.find_attr(a) is not None for a in need)
+    ctx.ob(rule, 'SchemaSettings (source of SCHEMA_KWARGS) carries allow, defuse, base_url and timeout', f'{ss.module.relpath}:{ss.node.lineno}', ok, '',
+           key='SchemaSettings|access-options')
+    ctx.explain('C12.h: documents.get_context never mutates **kwargs between its two option filters; the schema-side filter covers the access options.')
+
+
+RULES = [rule_a, rule_b, rule_c, rule_d, rule_e, rule_f, rule_g, rule_h]
